@@ -202,6 +202,14 @@ let handle line =
   | ["relpath"; b; t] ->
       let (p, c) = grp (str_of_tok b) (str_of_tok t) false in
       string_of_int (int_of_nat p) ^ "\t" ^ tok_of_str c
+  | ["gql"; u; sc_; force; chain; name] ->
+      (* chain: string over L (list) and N (non-null), outermost first *)
+      let o = { uo = bool_of_tok u; sc = bool_of_tok sc_; gc = false } in
+      let rec build i = if i >= Stdlib.String.length chain then GNamed (str_of_tok name)
+                        else if chain.[i] = 'L' then GList (build (i + 1)) else GNonNull (build (i + 1)) in
+      let t = build 0 in
+      let (h, _) = th o (field_dt t) in
+      tok_of_str (show o h) ^ "\t" ^ (if field_required (bool_of_tok force) t then "1" else "0")
   | ["c2s"; s] -> tok_of_str (camel_to_snake u0 (str_of_tok s))
   | ["s2uc"; d; s] -> tok_of_str (s2uc u0 (n_of_int (int_of_string d)) (str_of_tok s))
   | _ -> "BADREQ"
